@@ -154,7 +154,7 @@ def tlc_validate_records(spec_dir, module, cfg, rows, chunk=1500, env_key="OBS",
         if res.model_error or (res.distinct != n):
             raise ModelError("%s failed on chunk %d: rc=%d distinct=%d expected=%d\n%s" % (module, c0, res.rc, res.distinct, n, res.out[-3000:]))
         bad = {}
-        for m in re.finditer(r"Invariant (\w+) is violated.*?/\\ k = (\d+)", res.out, flags=re.S):
+        for m in re.finditer(r"Invariant (\w+) is violated[^\n]*\n(?:[^\n]*\n)*?(?:/\\ )?k = (\d+)", res.out, flags=re.S):
             bad.setdefault(m.group(1), set()).add(c0 + int(m.group(2)) - 1)
         return res, bad
 
